@@ -1,6 +1,122 @@
-import MotoModel.Model.Tape
-import MotoModel.Spec.K7
+/-
+  C01 — tape archive round trip: create, then list/extract, returns every file intact.
+-/
+import MotoModel.Proofs.TapeFiles
+import MotoModel.Props.C03
+import MotoModel.Props.C08
+import MotoModel.Props.C09
 namespace Moto.C01
 open Moto Moto.Tape
-theorem placeholder : buildEmpty 255 = [255, 2, 0] := rfl
+
+/-- the catalog name of a source as the tool files it: upper-cased `NAME.EXT` -/
+def catalogName (s : Str) : Str := upper (classify s).1.name ++ [46] ++ upper (classify s).1.ext
+
+/-- sources whose archived names are ordinary 8.3 directory entries -/
+def ValidNames (srcs : List Str) : Prop :=
+  ∀ s ∈ srcs, NameOK (upper (classify s).1.name) (upper (classify s).1.ext)
+
+/-- the blocks of a created tape, as the independent writer would lay them out: sixteen 01, no gap -/
+def asWritten (bs : List (Nat × Bytes)) : List Spec.K7.WBlock := bs.map (fun b => ⟨16, b.1, b.2, []⟩)
+
+theorem encode_eq_render (bs : List (Nat × Bytes)) :
+    Spec.K7.encodeBlocks bs = Spec.K7.render [] (asWritten bs) := by
+  simp [Spec.K7.encodeBlocks, Spec.K7.render, asWritten, List.flatMap_map, Spec.K7.renderBlock, Spec.K7.sync]
+
+theorem fileBlocks_wf (f : Spec.K7.SFile) : ∀ b ∈ asWritten (Spec.K7.fileBlocks f), b.wf := by
+  intro b hb
+  simp only [asWritten, Spec.K7.fileBlocks, List.map_cons, List.map_append, List.map_map, List.mem_cons,
+    List.mem_append, List.mem_map, List.map_nil] at hb
+  rcases hb with h | ⟨c, hc, h⟩ | h
+  · subst h
+    refine ⟨Nat.le_of_ble_eq_true rfl, ?_, by simp⟩
+    have := (C03.leader_fields f).2.2
+    simp only; omega
+  · subst h
+    refine ⟨Nat.le_of_ble_eq_true rfl, ?_, by simp⟩
+    exact (C03.chunks_bounds f.content c hc).2
+  · simp only [List.not_mem_nil, or_false] at h
+    subst h; exact ⟨Nat.le_of_ble_eq_true rfl, by simp, by simp⟩
+
+/-- **C01 (blocks)**: reading a created tape returns exactly the frames of the files' blocks -/
+theorem created_tape_blocks (fs : List Spec.K7.SFile) :
+    readAll (Spec.K7.tape fs) = (fs.flatMap Spec.K7.fileBlocks).map (fun b => Spec.K7.frame b.1 b.2) := by
+  unfold Spec.K7.tape Spec.K7.encode
+  rw [encode_eq_render]
+  have hwf : ∀ b ∈ asWritten (fs.flatMap Spec.K7.fileBlocks), b.wf := by
+    intro b hb
+    simp only [asWritten, List.mem_map, List.mem_flatMap] at hb
+    obtain ⟨x, ⟨f, _, hx⟩, rfl⟩ := hb
+    exact fileBlocks_wf f _ (by simp only [asWritten, List.mem_map]; exact ⟨x, hx, rfl⟩)
+  rw [C08.read_blocks_padded [] _ _ (by simp) (by simp) hwf]
+  simp [asWritten]
+
+theorem frames_of_file (f : Spec.K7.SFile) :
+    (Spec.K7.fileBlocks f).map (fun b => Spec.K7.frame b.1 b.2)
+      = fileFrames f.name f.ext f.kind f.mode (Spec.K7.chunks254 f.content) := by
+  simp [Spec.K7.fileBlocks, fileFrames, Spec.K7.leaderPayload]
+
+/-- the extractor over the frames of a list of files: every file written once, in order, intact -/
+theorem readLoop_files (dir : Str) (fs : List Spec.K7.SFile) : ∀ (s : RState),
+    (∀ f ∈ fs, NameOK f.name f.ext) →
+    ∃ s', readLoop true dir s ((fs.flatMap Spec.K7.fileBlocks).map (fun b => Spec.K7.frame b.1 b.2)) = (.ret 0, s')
+      ∧ s'.writes = s.writes ++ fs.map (fun f => (pathJoin dir (f.name ++ [46] ++ f.ext), f.content))
+      ∧ (s.l.verbose = false → s'.out = s.out ++ fs.map (fun f => f.name ++ [46] ++ f.ext))
+      ∧ s'.out.length = s.out.length + fs.length := by
+  induction fs with
+  | nil => intro s _; exact ⟨s, by simp [readLoop], by simp, by simp, by simp⟩
+  | cons f rest ih =>
+    intro s hn
+    simp only [List.flatMap_cons, List.map_append, frames_of_file]
+    obtain ⟨l', e, hv, _⟩ := readLoop_file dir f.name f.ext f.kind f.mode (Spec.K7.chunks254 f.content)
+      (hn f (by simp)) s ((rest.flatMap Spec.K7.fileBlocks).map (fun b => Spec.K7.frame b.1 b.2))
+    rw [e]
+    obtain ⟨s', e', hw, ho, hl⟩ := ih _ (fun f' hf' => hn f' (by simp [hf']))
+    refine ⟨s', e', ?_, ?_, ?_⟩
+    · rw [hw]; simp [C03.chunks_concat]
+    · intro hq
+      rw [ho (by simp [hv, hq])]
+      simp [lineOf, endLine, hq]
+    · rw [hl]; simp; omega
+
+/-- **C01 (round trip)**: for every ordered list of readable sources that fits on the tape, with
+    ordinary 8.3 names and *any* contents, create writes an archive from which extract writes
+    each file byte for byte under its upper-cased name next to the archive (or under `--into`),
+    in order, and list names exactly those files in the order given. -/
+theorem roundtrip (w : World) (v1 v2 : Bool) (archive : Str) (into : Option Str) (srcs : List Str)
+    (hr : AllReadable w srcs) (hn : ValidNames srcs)
+    (hfit : Spec.K7.encSize (srcs.map (C03.specFile w)) < 21504) :
+    ∃ tape, (inject w v1 archive srcs).writes = [(archive, tape)]
+      ∧ (extract v2 archive into tape).status = .ret 0
+      ∧ (extract v2 archive into tape).writes
+          = srcs.map (fun s => (pathJoin (targetDirOf archive into) (catalogName s), contentOf w s))
+      ∧ (enumerate false tape).status = .ret 0
+      ∧ (enumerate false tape).out = srcs.map catalogName := by
+  refine ⟨Spec.K7.tape (srcs.map (C03.specFile w)), (C09.accepted w v1 archive srcs hr hfit).2.1, ?_⟩
+  have hnames : ∀ f ∈ srcs.map (C03.specFile w), NameOK f.name f.ext := by
+    intro f hf
+    simp only [List.mem_map] at hf
+    obtain ⟨s, hs, rfl⟩ := hf
+    exact hn s hs
+  have hx : ∀ (v : Bool) (dir : Str), ∃ s', readLoop true dir { l := { verbose := v } } (readAll (Spec.K7.tape (srcs.map (C03.specFile w)))) = (.ret 0, s')
+      ∧ s'.writes = srcs.map (fun s => (pathJoin dir (catalogName s), contentOf w s))
+      ∧ (v = false → s'.out = srcs.map catalogName) := by
+    intro v dir
+    rw [created_tape_blocks]
+    obtain ⟨s', e, hw, ho, _⟩ := readLoop_files dir (srcs.map (C03.specFile w)) { l := { verbose := v } } hnames
+    refine ⟨s', e, ?_, ?_⟩
+    · rw [hw]; simp [List.map_map, C03.specFile, catalogName, Function.comp_def]
+    · intro hv; rw [ho hv]; simp [List.map_map, C03.specFile, catalogName, Function.comp_def]
+  obtain ⟨sx, ex, hwx, _⟩ := hx v2 (targetDirOf archive into)
+  obtain ⟨sq, eq, _, hoq⟩ := hx false []
+  have hl := C08.list_extract_agree_dir false [] _ (by rw [eq])
+  refine ⟨?_, ?_, hl.1, ?_⟩
+  · simp only [extract]; rw [ex]
+  · simp only [extract]; rw [ex]; exact hwx
+  · rw [hl.2, eq]; exact hoq rfl
+
+/-- the hypotheses are satisfiable: an ordinary name is `NameOK` -/
+example : NameOK (str "A") (str "BAS") := ⟨by decide, by decide, by decide, by decide, by decide⟩
+example : NameOK (str "NOEXT") [] := ⟨by decide, by decide, by decide, by decide, by decide⟩
+example : catalogName (str "dir.d/prog.bas,a") = str "PROG.BAS" := by decide
+
 end Moto.C01
